@@ -92,6 +92,7 @@ package mkvs
 // Key and Value are functions of (iterator, position). These are contracts ON
 // THE INTERFACE (assumptions about every implementation, listed as trusted).
 
+//@ import "github.com/oasisprotocol/oasis-core/go/storage/mkvs/node"
 //@ ghost var GIterPos map[Iterator]int
 //@ ghost func ItValid(it Iterator) bool { return ufb("iterValid", it, GIterPos[it]) }
 //@ ghost func ItKeyS(it Iterator) string { return ufr[string]("iterKey", it, GIterPos[it]) }
